@@ -635,6 +635,11 @@ func c04IndexSeq(c *Sexp) *Sexp {
 		if operr = t.ReinitIndexes(); operr == nil {
 			operr = reroot()
 		}
+	case "insert_one", "insert_many", "graft_tip", "graft_tree", "removetips", "rename", "setname", "shuffle":
+		// public edits that touch the tip-name index, on a fully indexed tree
+		if operr = t.ReinitIndexes(); operr == nil {
+			operr = c04TipEdit(t, c)
+		}
 	default:
 		return L(KV("panic", A("unknown pre")))
 	}
@@ -708,4 +713,72 @@ func c04IndexSeq(c *Sexp) *Sexp {
 		}
 	}
 	return L(obs...)
+}
+
+func c04TipNode(t *tree.Tree, name string) *tree.Node {
+	for _, n := range t.Tips() {
+		if n.Name() == name {
+			return n
+		}
+	}
+	return nil
+}
+
+// c04TipEdit applies one public edit that touches the tip-name index.
+func c04TipEdit(t *tree.Tree, c *Sexp) error {
+	names := c.StrList("names")
+	news := c.StrList("news")
+	switch c.Str("pre") {
+	case "insert_one":
+		for i, nm := range names {
+			n := c04TipNode(t, nm)
+			if n == nil {
+				return fmt.Errorf("no tip %q", nm)
+			}
+			if _, err := t.InsertIdenticalTip(n, news[i]); err != nil {
+				return err
+			}
+		}
+		return nil
+	case "insert_many":
+		groups := [][]string{}
+		for i, nm := range names {
+			groups = append(groups, []string{nm, news[i]})
+		}
+		return t.InsertIdenticalTips(groups)
+	case "graft_tip":
+		edges := t.Edges()
+		n := t.NewNode()
+		n.SetName(news[0])
+		_, _, _, err := t.GraftTipOnEdge(n, edges[c.Int("j")%len(edges)])
+		return err
+	case "graft_tree":
+		g, err := BuildTree(c.Get("graft"))
+		if err != nil {
+			return err
+		}
+		return t.GraftTreeOnTip(names[0], g)
+	case "removetips":
+		return t.RemoveTips(false, names...)
+	case "rename":
+		m := map[string]string{}
+		for i, nm := range names {
+			m[nm] = news[i]
+		}
+		return t.Rename(m)
+	case "setname":
+		for i, nm := range names {
+			n := c04TipNode(t, nm)
+			if n == nil {
+				return fmt.Errorf("no tip %q", nm)
+			}
+			n.SetName(news[i])
+		}
+		return nil
+	case "shuffle":
+		rand.Seed(int64(c.Int("seed")))
+		t.ShuffleTips()
+		return nil
+	}
+	return fmt.Errorf("unknown edit")
 }
